@@ -11,7 +11,7 @@ ANCHOR_PREFIXES = ["position::", "element::SvgElement::expand_compound", "elemen
                    "element::SvgElement::transmute", "element::SvgElement::bbox", "types::attr_split"]
 BOUNDS = ("shapes rect/circle/ellipse/line; per axis every pair from {start,end,centre,length} (6x6), circles also one-axis-plus-one-value; longhand and the shorthands "
           "xy cxy xy1 xy2 wh rxy dxy dwh xy+xy-loc, one or two values, space/comma separators; positions k/2 in [-512,512], lengths k/2 in [0,256], dx/dy k/2 in [-64,64]; "
-          "boxes with end>=start for rect/circle/ellipse (stated as an assumption in the query); one element per document")
+          "boxes with end>=start for rect/circle/ellipse (stated as an assumption in the query); one element per document; one axis with a length only or with nothing (SVG default position), with dx / dy / dxy; elements solved on a retry; radius spelling r for the free axis of an ellipse")
 ASSUMPTIONS = ["reference semantics per axis: (s,e)->[s,e]; (s,m)->[s,2m-s]; (e,m)->[2m-e,e]; (s,l)->[s,s+l]; (e,l)->[e-l,e]; (m,l)->[m-l/2,m+l/2] (Appendix A, from the property text)",
                "circle templates assume equal extents on both axes (a circle cannot describe any other box)"]
 
